@@ -12,6 +12,7 @@ let rec rd toks = match toks with
   | "v" :: i :: k :: r -> (SVar (nat_of_int (int_of_string i), z_of_int (int_of_string k)), r)
   | "i" :: z :: r -> (SInt (z_of_int (int_of_string z)), r)
   | "d" :: m :: s :: r -> (SDec (z_of_int (int_of_string m), nat_of_int (int_of_string s)), r)
+  | "D" :: m :: s :: r -> (SDec8 (z_of_int (int_of_string m), nat_of_int (int_of_string s)), r)
   | "n" :: r -> let (a, r1) = rd r in (SNeg a, r1)
   | "p" :: r -> let (a, r1) = rd r in (SPar a, r1)
   | "a" :: r -> let (a, r1) = rd r in (SAbs a, r1)
@@ -26,6 +27,7 @@ let rec show = function
   | SVar (i, k) -> Printf.sprintf "v%d@%d" (int_of_nat i) (int_of_z k)
   | SInt z -> string_of_int (int_of_z z)
   | SDec (m, s) -> Printf.sprintf "%de-%d" (int_of_z m) (int_of_nat s)
+  | SDec8 (m, s) -> Printf.sprintf "%dd-%d" (int_of_z m) (int_of_nat s)
   | SNeg a -> "(neg " ^ show a ^ ")" | SPar a -> "(par " ^ show a ^ ")"
   | SAbs a -> "(abs " ^ show a ^ ")" | SExp a -> "(exp " ^ show a ^ ")" | SLog a -> "(log " ^ show a ^ ")"
   | SBin (o, a, b) -> "(" ^ (match o with OAdd -> "+" | OSub -> "-" | OMul -> "*" | ODiv -> "/" | OPow -> "**") ^ " " ^ show a ^ " " ^ show b ^ ")"
